@@ -100,6 +100,7 @@ type FnCtx struct {
 	top      *ssa.Function
 	fc       *FuncContract
 	facts    []*Term
+	triggers []*Term
 	obls     []*Obligation
 	kindOrd  map[string]int
 	writeLog *writeLog
@@ -136,6 +137,19 @@ func (c *FnCtx) addFact(st *State, f *Term) {
 		return
 	}
 	c.facts = append(c.facts, g)
+	c.triggers = append(c.triggers, nil)
+}
+
+// addFactT adds a fact that only matters when term trig occurs in the goal or in another relevant fact
+// (definitional facts about an uninterpreted application or a fresh symbol). Dropping hypotheses is sound.
+func (c *FnCtx) addFactT(st *State, trig, f *Term) {
+	ts := c.eng.ts
+	g := ts.Implies(st.pc, f)
+	if g.IsTrue() {
+		return
+	}
+	c.facts = append(c.facts, g)
+	c.triggers = append(c.triggers, trig)
 }
 
 func (c *FnCtx) addObl(st *State, kind, anchor string, goal *Term, pos token.Pos, src string) {
